@@ -83,7 +83,7 @@ func roundTrip(s smbgen.Struct, rels []smbgen.Relation, mode smbgen.Mode, iter i
 		r.Violation(s.Name+":marshal-panic:"+mon.PanicClass(pv), fmt.Sprintf("Marshal panicked: %v at %s", pv, mon.TopLibFrame(st)), cs(nil))
 		return
 	}
-	if err != nil && maxLen < 0 && byteTotal(reflect.ValueOf(c).Elem()) > 65000 {
+	if err != nil && maxLen < 0 && smbgen.ByteTotal(reflect.ValueOf(c).Elem()) > 65000 {
 		r.Count("big_assignments_refused_over_64k", 1) // does not fit a 16-bit byte count: refusing is right
 		return
 	}
@@ -172,34 +172,6 @@ func (h *decodedRing) final() {
 	for _, p := range h.buf {
 		h.verify(p, "at the end of the run")
 	}
-}
-
-// byteTotal sums the lengths of all byte slices and strings below v.
-func byteTotal(v reflect.Value) int {
-	switch v.Kind() {
-	case reflect.Slice:
-		if v.Type().Elem().Kind() == reflect.Uint8 {
-			return v.Len()
-		}
-		n := 0
-		for i := 0; i < v.Len(); i++ {
-			n += byteTotal(v.Index(i))
-		}
-		return n
-	case reflect.String:
-		return 2 * v.Len()
-	case reflect.Struct:
-		n := 0
-		for i := 0; i < v.NumField(); i++ {
-			n += byteTotal(v.Field(i))
-		}
-		return n
-	case reflect.Ptr:
-		if !v.IsNil() {
-			return byteTotal(v.Elem())
-		}
-	}
-	return 0
 }
 
 // decodeEditEncode: a decoded structure whose byte-slice fields may still point into the
